@@ -10,7 +10,7 @@ import tempfile
 import threading
 from pathlib import Path
 
-from ..common import PY, VERIF, Report, rng_for, seed, tier, use_repo
+from ..common import PY, REPO_SRC, VERIF, Report, rng_for, seed, tier, use_repo
 from ..gen import corpus
 
 PROP = "C10"
@@ -56,7 +56,8 @@ def module_state():
     for mod in (parser, emitter, rast, pio, Reduino):
         for name in sorted(vars(mod)):
             v = vars(mod)[name]
-            if isinstance(v, (dict, list, set)) and not name.startswith("__"):
+            # _VERIF_SKIPPED is the verification hook's own log (only written when REDUINO_VERIF=1)
+            if isinstance(v, (dict, list, set)) and not name.startswith("__") and not name.startswith("_VERIF"):
                 n += 1
                 h.update(name.encode())
                 h.update(repr(sorted(v.items(), key=repr) if isinstance(v, dict) else sorted(v, key=repr)
@@ -88,7 +89,7 @@ def main() -> int:
         for hs in hash_seeds:
             env = dict(os.environ)
             env["PYTHONHASHSEED"] = str(hs)
-            procs[hs] = subprocess.Popen([PY, "-c", CHILD, str(sp), str(VERIF.parent / "repo" / "src")],
+            procs[hs] = subprocess.Popen([PY, "-c", CHILD, str(sp), str(REPO_SRC)],
                                          stdout=subprocess.PIPE, stderr=subprocess.PIPE, text=True, env=env)
         results = {}
         for hs, p in procs.items():
